@@ -95,7 +95,7 @@ def vecs(h, lens, nonzero=True):
 
 
 for _name, (_fn, _lens) in BASE_VEC.items():
-    @claim(f'forms:{_name}', tier='quick' if _name in QUICK_BASE else 'thorough')
+    @claim(f'forms:{_name}')
     def _(h, name=_name, fn=_fn, lens=_lens):
         vs = vecs(h, lens)
         if name == 'v2q':
@@ -115,7 +115,7 @@ for _name, (_fn, _lens) in BASE_VEC.items():
             else:
                 h.same(form, r, ref)
 
-    @claim(f'wrong-length:{_name}', tier='quick' if _name in QUICK_BASE else 'thorough')
+    @claim(f'wrong-length:{_name}')
     def _(h, name=_name, fn=_fn, lens=_lens):
         if name in ('getvector', 'colvec', 'unitvec'):
             return          # accept any length
@@ -175,9 +175,11 @@ QUICK_CLASS = {'SO3.RPY', 'SO3.AngVec', 'SE3(v)', 'SE3.Rx-t', 'SE2(xyt)', 'UQ(v4
                'Twist3(v,w)', 'Twist3.Revolute', 'Plucker.PQ', 'SO3.EulerVec', 'SE3.Exp', 'SO3*point', 'SE3.Delta', 'SO3.Eul'}
 
 for _name, (_fn, _lens) in CLASS_VEC.items():
-    @claim(f'class-forms:{_name}', tier='quick' if _name in QUICK_CLASS else 'thorough')
+    @claim(f'class-forms:{_name}')
     def _(h, name=_name, fn=_fn, lens=_lens):
         vs = vecs(h, lens)
+        if name.endswith('.OA'):
+            h.assume(nsq(cross(vs[0], vs[1])) >= 0.01)      # documented: O and A must not be parallel
         ref = fn(*[FORMS['array1d'](h, v) for v in vs])
         for form in ('list', 'tuple'):
             h.same(form, fn(*[FORMS[form](h, v) for v in vs]), ref)
